@@ -10,7 +10,7 @@ real connectors (C14/C17 abstraction functions). Per node i (fire_i = its combin
   the node's consumer sees exactly its required fields of head(q_{i-1}); the record appended to q_i carries the node's
   generated fields (argument / method result / stage function of the inputs) and copies the other live fields;
   q_i' = clear ? [] : append(drop(q_i, fire_{i+1}), record_i if fire_i)   (whole view; nothing else changes).
-Lossless / ordered / once-per-stage then follows for a chain of FIFO queues (paper lemma)."""
+Lossless / ordered / once-per-stage then follows for a chain of FIFO queues (Lean lemmas Hist.move_preserves / source_push / sink_pop / queue_history)."""
 
 import z3
 from amaranth import Elaboratable, Signal, unsigned
@@ -30,7 +30,7 @@ HISTORY_LEMMAS = ['move_preserves', 'source_push', 'sink_pop', 'queue_history'] 
 LEVEL = "proof"
 ASSUMPTIONS = [
     "pipeline shapes are bounded to the listed grammar instances (2-5 nodes, 2-bit fields); per shape all inputs and all histories (1-induction over the connectors' invariants)",
-    "paper lemma (not machine-checked): a chain of FIFO queues in which every stage moves the head of its input queue to the tail of its output queue preserves order and multiplicity of items",
+    "the composition of per-cycle simultaneous stage firings into a sequence of single moves (each of which Hist.move_preserves covers) is not machine-checked; the tracked-item ghost carries the same claim for an arbitrary item through the real netlist",
 ]
 W = 2
 
